@@ -67,6 +67,14 @@ func intOf(v types.MalType) int {
 	if i, ok := v.(int); ok {
 		return i
 	}
+	// "map" style: the atom holds {:k n}
+	if m, ok := v.(types.HashMap); ok {
+		if x, found := m.Val["\u029ek"]; found {
+			if i, ok := x.(int); ok {
+				return i
+			}
+		}
+	}
 	return -999
 }
 
@@ -111,10 +119,33 @@ type atomOp struct {
 
 var atomOpKinds = []string{"deref", "reset", "swapinc", "swapinc", "swapfail", "swapaddother", "swapaddself", "swapswapother", "print"}
 
-// lisp source of an operation on atoms a1..an
-func atomOpSrc(o atomOp) string {
+// lisp source of an operation on atoms a1..an.  style "map": the atoms hold {:k n} and every update goes
+// through the BUILTIN higher-order function update, (swap! a update :k f): the same abstract operations,
+// with a host function as swap!'s update function and the lisp function called back from inside it
+func atomOpSrc(o atomOp, style string) string {
 	a := fmt.Sprintf("a%d", o.Atom)
 	b := fmt.Sprintf("a%d", o.B)
+	if style == "map" {
+		switch o.Op {
+		case "deref":
+			return "(get @" + a + " :k)"
+		case "reset":
+			return fmt.Sprintf("(get (reset! %s {:k %d}) :k)", a, o.V)
+		case "swapinc":
+			return fmt.Sprintf("(get (swap! %s update :k inc) :k)", a)
+		case "swapfail":
+			return fmt.Sprintf("(get (swap! %s update :k (fn [x] (throw \"update failed\"))) :k)", a)
+		case "swapaddother":
+			return fmt.Sprintf("(get (swap! %s update :k (fn [x] (+ x (get @%s :k)))) :k)", a, b)
+		case "swapaddself":
+			return fmt.Sprintf("(get (swap! %s update :k (fn [x] (+ x (get @%s :k)))) :k)", a, a)
+		case "swapswapother":
+			return fmt.Sprintf("(get (swap! %s update :k (fn [x] (do (swap! %s update :k inc) (+ x 1)))) :k)", a, b)
+		case "print":
+			return fmt.Sprintf("(pr-str %s)", a)
+		}
+		return "nil"
+	}
 	switch o.Op {
 	case "deref":
 		return "@" + a
@@ -139,6 +170,7 @@ func atomOpSrc(o atomOp) string {
 type atomScenario struct {
 	NAtoms  int
 	Scripts [][]atomOp
+	Style   string // "" (the atoms hold integers) | "map" (they hold {:k n}, updated through the builtin update)
 }
 
 func randomAtomScenario(rnd *rand.Rand, maxThreads, maxOps int) atomScenario {
@@ -179,7 +211,11 @@ func runAtomScenario(rec *atomRecorder, sc atomScenario) (hang string, infra err
 	ctx := context.Background()
 	rec.atoms = map[*concurrent.Atom]int{}
 	for i := 1; i <= sc.NAtoms; i++ {
-		ast, _ := lisp.READ(fmt.Sprintf("(def a%d (atom 0))", i), nil, ns)
+		init := "0"
+		if sc.Style == "map" {
+			init = "{:k 0}"
+		}
+		ast, _ := lisp.READ(fmt.Sprintf("(def a%d (atom %s))", i, init), nil, ns)
 		v, e := lisp.EVAL(ctx, ast, ns)
 		if e != nil {
 			return "", e
@@ -191,7 +227,7 @@ func runAtomScenario(rec *atomRecorder, sc atomScenario) (hang string, infra err
 	asts := make([][]types.MalType, len(sc.Scripts))
 	for t, script := range sc.Scripts {
 		for _, o := range script {
-			ast, rerr := lisp.READ(atomOpSrc(o), nil, ns)
+			ast, rerr := lisp.READ(atomOpSrc(o, sc.Style), nil, ns)
 			if rerr != nil {
 				return "", rerr
 			}
@@ -269,10 +305,19 @@ func cmdAtoms(args []string) {
 	enc := json.NewEncoder(w)
 	scenarios := []atomScenario{}
 	for i := 0; i < 8; i++ {
-		scenarios = append(scenarios, dangerousAtomScenarios()...)
+		for _, sc := range dangerousAtomScenarios() {
+			if i%2 == 1 {
+				sc.Style = "map"
+			}
+			scenarios = append(scenarios, sc)
+		}
 	}
 	for i := 0; i < *n; i++ {
-		scenarios = append(scenarios, randomAtomScenario(rnd, *maxThreads, *maxOps))
+		sc := randomAtomScenario(rnd, *maxThreads, *maxOps)
+		if i%3 == 2 {
+			sc.Style = "map"
+		}
+		scenarios = append(scenarios, sc)
 	}
 	hangs := 0
 	for i, sc := range scenarios {
